@@ -269,7 +269,7 @@ Proof.
 Qed.
 Lemma ho_init_keys p ms km o : heap_only (init_keys p ms km o).
 Proof.
-  unfold init_keys.
+  unfold init_keys. change derive_keys_any with derive_keys.
   apply ho_bind.
   { apply ho_if; [|apply ho_ret]. destruct (snd km); [apply ho_exit|]. ho_auto. }
   intros o1. destruct (derive_keys _ _ _) as [st [d|]]; [|apply ho_exit].
